@@ -14,7 +14,8 @@ import time
 from harness import vlib
 from harness import c19lib as L
 
-THEOREMS = []
+THEOREMS = ["C19_trace_partial", "C19_trace_refuted", "C19_codec_union_refuted", "C19_mixin_once", "C19_context",
+            "C19_union_context_refuted", "C19_de_trace_partial"]
 
 # ---------------------------------------------------------------------------
 # generators
